@@ -18,3 +18,6 @@ pub use async_read::CopyReader;
 pub use output_bytes::output_bytes;
 
 pub mod constant_declarations;
+
+#[cfg(huggingface_xet_core_verif)]
+pub mod verif_hooks;
